@@ -513,7 +513,13 @@ impl Stdfs {
             let src = entry?;
             let uid = opts.uid.map(nix::unistd::Uid::from_raw);
             let gid = opts.gid.map(nix::unistd::Gid::from_raw);
-            nix::unistd::chown(src.path(), uid, gid)?;
+            // A link that isn't followed is changed itself, never what it points to
+            let flag = if src.is_symlink() && !opts.follow {
+                nix::unistd::FchownatFlags::NoFollowSymlink
+            } else {
+                nix::unistd::FchownatFlags::FollowSymlink
+            };
+            nix::unistd::fchownat(None, src.path(), uid, gid, flag)?;
         }
         Ok(())
     }
